@@ -2105,9 +2105,9 @@ func TestVerif_C09_LeaderLog(t *testing.T) {
 		}
 	}
 	req := func(name string, quick int) { r.Require(name, int64(kit.N(quick, quick*6)/shards)) }
-	req("leader_txn_commit", 100)
-	req("leader_txn_conflict", 40)
-	req("leader_txn_lists", 200)
+	req("leader_txn_commit", 60)
+	req("leader_txn_conflict", 30)
+	req("leader_txn_lists", 150)
 	req("resets_inside_conflicting_txn_window", 30)
 	req("replica_runs", 60)
 }
